@@ -38,18 +38,17 @@ func rulesC05(c *Ctx) {
 		calls := p.callsIn(fn, "objects.Application.tryNodes", "objects.Application.tryRequiredNode", "objects.Application.tryPreemption")
 		for _, call := range calls {
 			st := p.StateAt(fn, call)
-			reqArg := call.Args[0]
-			if p.IsCall(call, "objects.Application.tryPreemption") {
-				reqArg = call.Args[3]
+			reqArg := p.argOfType(call, "objects.Allocation")
+			if reqArg == nil {
+				c.Check("C05.a", "user headroom before "+shortFn(p.CalleeName(call)), call, false, "%s is not called with exactly one allocation", p.CalleeName(call))
+				continue
 			}
 			reqT := T(reqArg, st)
 			ok := p.Holds(st, p.CallAtom(true, func(cl *ast.CallExpr, a Atom) bool {
 				if len(cl.Args) != 1 || !p.IsResOf(a.term(cl.Args[0]), reqT) {
 					return false
 				}
-				d := p.DefOf(a.term(Recv(cl)))
-				hc, isC := unparen(d.E).(*ast.CallExpr)
-				return isC && p.IsCall(hc, "ugm.Manager.Headroom")
+				return Recv(cl) != nil && p.reaches(a.term(Recv(cl)), "ugm.Manager.Headroom")
 			}, "resources.Resource.FitInMaxUndef"))
 			c.Check("C05.a", "user headroom before "+shortFn(p.CalleeName(call)), call, ok, "%s reached without userHeadroom.FitInMaxUndef(res(request)); facts: %v", p.CalleeName(call), p.FactStrings(st))
 		}
@@ -57,9 +56,13 @@ func rulesC05(c *Ctx) {
 	}
 	if fn := c.MustFunc("C05.a", "objects.Application.tryReservedAllocate"); fn != nil {
 		for _, call := range p.callsIn(fn, "objects.Application.checkHeadRooms") {
-			d := p.DefOf(T(call.Args[1], p.StateAt(fn, call)))
-			hc, isC := unparen(d.E).(*ast.CallExpr)
-			c.Check("C05.a", "checkHeadRooms receives the user headroom (reserved)", call, isC && p.IsCall(hc, "ugm.Manager.Headroom"), "second argument of checkHeadRooms is %s", p.Src(d.E))
+			got := false
+			for _, arg := range call.Args {
+				if p.reaches(T(arg, p.StateAt(fn, call)), "ugm.Manager.Headroom") {
+					got = true
+				}
+			}
+			c.Check("C05.a", "checkHeadRooms receives the user headroom (reserved)", call, got, "no argument of checkHeadRooms is the result of Manager.Headroom")
 		}
 	}
 	for _, nm := range []string{"ugm.Manager.Headroom", "ugm.Manager.CanRunApp"} {
@@ -108,12 +111,20 @@ func rulesC05(c *Ctx) {
 					p.NilAtom(true, func(t Term) bool {
 						d := p.DefOf(t)
 						cl, ok := unparen(d.E).(*ast.CallExpr)
-						return ok && p.IsCall(cl, "ugm.Manager.GetGroupTracker")
+						if !ok {
+							return false
+						}
+						if p.IsCall(cl, "ugm.Manager.GetGroupTracker") {
+							return true
+						}
+						// a private helper that answers nil or the group tracker of the application
+						callee := p.Callee(cl)
+						return callee != nil && p.returnsNilOr(p.FuncOf[callee], "ugm.Manager.GetGroupTracker")
 					})))
 				c.Check("C05.a", shortFn(nm)+": user-only answer only without a group", rs, isUser(r) && noGroup, "%s returns %s without the fact that no group tracker applies; facts: %v", nm, p.Src(r), p.FactStrings(st))
 			}
 		}
-		c.Floor("C05.a", "answers of "+nm, n, 3)
+		c.Floor("C05.a", "answers of "+nm, n, 2)
 	}
 	// queue tracker recursion
 	if fn := c.MustFunc("C05.a", "ugm.QueueTracker.headroom"); fn != nil {
@@ -227,7 +238,7 @@ func rulesC09(c *Ctx) {
 	if fn := c.MustFunc("C09.a", "objects.Node.Reserve"); fn != nil {
 		n := 0
 		for _, w := range p.FieldWrites(p.Field("objects.Node.reservations")) {
-			if w.Fn != fn || w.Kind != "elem" {
+			if !p.inFn(w.Fn, fn) || w.Kind != "elem" {
 				continue
 			}
 			n++
@@ -260,21 +271,45 @@ func rulesC09(c *Ctx) {
 		c.Floor("C09.a", "stores into Node.reservations", n, 1)
 		// required-node reservations only next to other required-node reservations: an error return inside the range loop
 		okLoop := false
-		ast.Inspect(fn.Decl.Body, func(nn ast.Node) bool {
+		p.InspectDeep(fn, func(nn ast.Node) bool {
 			rs, ok := nn.(*ast.RangeStmt)
 			if !ok || !p.recvField(fn, rs.X, "objects.Node.reservations") {
 				return true
 			}
+			owner := p.EnclosingFunc(rs.Pos())
 			ast.Inspect(rs.Body, func(m ast.Node) bool {
 				ret, ok := m.(*ast.ReturnStmt)
 				if !ok || len(ret.Results) != 1 || p.isNilExpr(ret.Results[0]) {
 					return true
 				}
-				st := p.StateAt(fn, ret)
-				if st != nil && p.Holds(st, p.CmpAtom(func(op tokenT, x, y Term) bool {
+				st := p.StateAt(owner, ret)
+				if st == nil || !p.Holds(st, p.CmpAtom(func(op tokenT, x, y Term) bool {
 					_, isF := p.fieldSel(x.E, "objects.Allocation.requiredNode")
 					return op == tokEQL && isF && p.IsEmptyString(y.E)
 				})) {
+					return true
+				}
+				if owner == fn {
+					okLoop = true
+					return true
+				}
+				// the refusal lives in an extracted helper: every store of the reservation must be behind its nil answer
+				stores, guarded := 0, 0
+				for _, w := range p.FieldWrites(p.Field("objects.Node.reservations")) {
+					if w.Fn != fn || w.Kind != "elem" {
+						continue
+					}
+					stores++
+					// ... for a required-node ask (a normal ask is refused earlier whenever anything is reserved)
+					notReq := p.CmpAtom(func(op tokenT, x, y Term) bool {
+						_, isF := p.fieldSel(x.E, "objects.Allocation.requiredNode")
+						return op == tokEQL && isF && p.IsEmptyString(y.E)
+					})
+					if p.Holds(p.StateAt(fn, w.Node), anyReq(p.ResultNilAtom(true, nil, owner.Name), notReq)) {
+						guarded++
+					}
+				}
+				if stores > 0 && stores == guarded {
 					okLoop = true
 				}
 				return true
@@ -286,7 +321,7 @@ func rulesC09(c *Ctx) {
 	if fn := c.MustFunc("C09.a", "objects.Application.reserveInternal"); fn != nil {
 		n := 0
 		for _, w := range p.FieldWrites(p.Field("objects.Application.reservations")) {
-			if w.Fn != fn || w.Kind != "elem" {
+			if !p.inFn(w.Fn, fn) || w.Kind != "elem" {
 				continue
 			}
 			n++
@@ -653,7 +688,7 @@ func rulesC09(c *Ctx) {
 		calls := p.callsIn(fn, "objects.Application.unReserveInternal")
 		c.Floor("C09.d", "un-reservations in removeAsksInternal", len(calls), 2)
 		for _, w := range p.FieldWrites(p.Field("objects.Application.requests")) {
-			if w.Fn != fn {
+			if !p.inFn(w.Fn, fn) {
 				continue
 			}
 			// each removal of asks is preceded by the matching un-reservation (same branch)
